@@ -7,6 +7,8 @@ import Updog.Model.Index
 import Updog.Model.CacheKey
 import Updog.Model.Rows
 import Updog.Model.Server
+import Updog.Model.Cache
+import Updog.Model.BigWriter
 import Updog.Spec.Sat
 import Std.Data.HashMap
 open Updog
@@ -163,11 +165,23 @@ def executeFast (ix : Index) (q : Query) : Option Result :=
           fun rg => (rg.1, popcountFast rg.2)
       some ⟨popcountFast bm, gs⟩
 
+/-- an unbounded map cache that logs every call: the harness drives the real code with the same kind of cache
+    and compares the logs, which ties the order and keys of the cache calls of `evalC` to the Go `eval` methods -/
+abbrev LogCache := List (UInt64 × Nat) × List String
+
+def logCacheImpl : CacheImpl LogCache where
+  get := fun s k =>
+    match s.1.find? (·.1 == k) with
+    | some kv => ((s.1, s.2 ++ ["g" ++ toHex (be64 k.toNat) ++ ":h"]), some kv.2)
+    | none => ((s.1, s.2 ++ ["g" ++ toHex (be64 k.toNat) ++ ":m"]), none)
+  put := fun s k bm => (((k, bm) :: s.1.filter (·.1 != k)), s.2 ++ ["p" ++ toHex (be64 k.toNat)])
+
 structure IdxSt where
   rows : Array Row := #[]
   fast : FastW := {}
   ix : Option Index := none        -- fast-built
   mix : Option Index := none       -- list-model-built (small datasets only)
+  logc : List (UInt64 × Nat) := [] -- contents of the logging cache (C03/C04 tie)
 
 def imageLine (ix : Index) (w : Writer) : String :=
   let keys := (w.vals.map (·.1.toNat)).mergeSort (· ≤ ·)
@@ -230,6 +244,18 @@ def stepIdx (st : IdxSt) (cmd : String) (args : List String) : IdxSt × String :
         (st, "ok cols=" ++ ",".intercalate (rs.cols.map toHex) ++ " types=" ++ ",".intercalate rs.types ++
           String.join (rs.rows.map fun r => " r " ++ ",".intercalate (r.map cell)))
     | _, _ => (st, "bad-op")
+  | "ctrace" =>  -- Execute with the logging cache: the sequence of cache calls and the answer's count
+    match st.ix, parseQuery args with
+    | some ix, some q =>
+      let r := executeC xxhash64 logCacheImpl ix (st.logc, []) q
+      let ans := match r.2 with | none => "err" | some res => s!"ok {popcountFast 0 + res.count}"
+      ({ st with logc := r.1.1 }, ans ++ " " ++ " ".intercalate r.1.2)
+    | _, _ => (st, "bad-op")
+  | "ctrace-reset" => ({ st with logc := [] }, "ok")
+  | "imagebig" =>  -- the big writer model's output image (cursor walk over the sorted temp keys)
+    let img := BigWriter.image xxhash64 st.rows.toList
+    let keys := (img.1.map (·.1.toNat)).mergeSort (· ≤ ·)
+    (st, s!"ok I={img.2.2} n={keys.length}" ++ String.join (keys.map fun k => " " ++ toHex (be64 k)))
   | "key" =>
     match parseExprToks args with
     | some (e, []) => (st, "ok " ++ toHex (be64 (cacheKey xxhash64 e).toNat))
